@@ -1637,13 +1637,13 @@ private:
       void SetBuffer(const char * srcBytes, uint32 srcStrlen)
       {
          memcpy(_smallBuffer, srcBytes, srcStrlen);
-         _smallBuffer[srcStrlen] = '\0';  // make sure we're NUL terminated (could be an issue if we're shrinking)
+         if (srcStrlen < sizeof(_smallBuffer)) _smallBuffer[srcStrlen] = '\0';  // make sure we're NUL terminated (could be an issue if we're shrinking).  When _smallBuffer is completely full, SetLength() will set _ssoFreeBytesLeft to zero and that is our NUL byte.
          SetLength(srcStrlen);
       }
 
       void Truncate(uint32 newStrlen)
       {
-         _smallBuffer[newStrlen] = '\0';
+         if (newStrlen < sizeof(_smallBuffer)) _smallBuffer[newStrlen] = '\0';  // (when newStrlen is equal to sizeof(_smallBuffer), our NUL byte is _ssoFreeBytesLeft, which SetLength() will set to zero below)
          SetLength(muscleMin(newStrlen, Length()));
       }
 
